@@ -26,7 +26,8 @@ EXPLANATION = (
     'R6 import by path: the directory put on sys.path is the one split_modpath computed, the name imported is the one modpath_to_modname computed, '
     'the import happens inside the sys.path context manager (whose release on every exit is decided under C12.R3) and its result is returned. '
     'That the functions agree with the import system on every tree (incl. PEP 420 namespace directories, where the __init__-chain rule '
-    'intentionally differs) is not decided.')
+    'intentionally differs) is not decided.'
+    ' R1b check_dpath never gives up before the file candidates were tried. R9 the path <-> name functions use abspath, never realpath.')
 DECIDES = ['candidate order and guards of the per-directory check', 'first hit in search-path order', 'shape of the package walk',
            'name derivation from the relative path', 'guards of __init__/__main__ normalisation', 'flow of directory and name into the import by path']
 NOT_DECIDED = ['agreement with importlib on all directory trees', 'namespace packages', 'editable-install / egg-link indirections', 'zip imports']
